@@ -679,10 +679,17 @@ Definition check_stale (closed : bool) (o : obs) : bool :=
 
 (* [snap_ok k]: the k-th snapshot was taken at quiescence (the generator knows); [closed]: the
    scenario cut the connection before the stale probe *)
-Definition check_C20 (strict closed : bool) (expect_reply : list N) (quiescent : list bool) (o : obs) : bool :=
+(* [expect_up k]: up to the k-th snapshot the scenario connected the nodes and did not cut the
+   link: the transport delivered every byte, so the session must be there (a session torn down
+   on a valid stream stops every remote reference although no original stopped) *)
+Definition check_up (expect_up : list bool) (o : obs) : bool :=
+  forallb (fun su : snap * bool => implb (snd su) (n_up (fst su))) (combine (o_snaps o) expect_up).
+
+Definition check_C20 (strict closed : bool) (expect_reply : list N) (quiescent expect_up : list bool) (o : obs) : bool :=
   check_fifo strict o
   && check_calls strict (fun rid => memN rid expect_reply) o
   && forallb (fun sq : snap * bool => if snd sq then check_snap (fst sq) else true) (combine (o_snaps o) quiescent)
+  && check_up expect_up o
   && check_stale closed o.
 
 (* ---- the oracle for the unit-level runs of the real proxy handler (E3): tags handed out are
@@ -794,3 +801,17 @@ Definition is_wterm (i : N) (w : wf) : bool := match w with WTerm p => N.eqb p i
 Definition check_C20_sess (exited : list N) (outs : list uout) : bool :=
   let w := flat_map u_wire outs in
   forallb (fun i => implb (existsb (is_wspawn i) w) (existsb (is_wterm i) w)) exited.
+
+(* the order clause at the level of one session (E3b): what each local actor handled, per sender
+   (the first argument byte names the sender in these histories), is a subsequence of the frames
+   that arrived for it, in arrival order — inbound Calls included: a Call is handed to the actor
+   in frame order like a Cast *)
+Definition meqb (a b : msg) : bool :=
+  Bool.eqb (m_call a) (m_call b) && N.eqb (m_v a) (m_v b) && list_eqb N.eqb (m_a a) (m_a b).
+Definition sender_of (m : msg) : N := hd 0 (m_a m).
+Definition stream_of (t s : N) (l : list (N * msg)) : list msg :=
+  map snd (filter (fun x => N.eqb (fst x) t && N.eqb (sender_of (snd x)) s) l).
+Definition check_C20_sess_order (inbound : list (N * msg)) (outs : list uout) : bool :=
+  let d := flat_map u_dlv outs in
+  forallb (fun x => subseqb meqb (stream_of (fst x) (sender_of (snd x)) d)
+                                  (stream_of (fst x) (sender_of (snd x)) inbound)) d.
